@@ -10,12 +10,19 @@ open GV
 /-- **The clock starts when the packet has been completely written** (time spent queued does not count):
     the deadline recorded is the time of that moment plus T; operations without a timeout record nothing. -/
 theorem timeout_armed_at_write (e : Engine) (id : Nat) (o : Op) (idx t : Nat) (ho : e.op? id = some o)
+    (hq : isQos0Publish o.packet = false)
     (hu : o.user = some (idx, some t)) : (e.startAckTimeout id).timeouts = e.timeouts ++ [(id, e.now + t)] := by
-  simp [Engine.startAckTimeout, ho, hu]
+  simp [Engine.startAckTimeout, Op.ackTimeout, ho, hu, hq]
 
 theorem no_timeout_no_record (e : Engine) (id : Nat) (o : Op) (ho : e.op? id = some o)
     (hu : o.user = none ∨ ∃ idx, o.user = some (idx, none)) : (e.startAckTimeout id).timeouts = e.timeouts := by
-  rcases hu with h | ⟨idx, h⟩ <;> simp [Engine.startAckTimeout, ho, h]
+  rcases hu with h | ⟨idx, h⟩ <;> simp [Engine.startAckTimeout, Op.ackTimeout, ho, h]
+
+/-- **Only acknowledged operations can time out**: a QoS 0 publish - complete once written, with no acknowledgement to wait
+    for - never gets a timeout record, whatever its options say. -/
+theorem qos0_publish_never_times_out (e : Engine) (id : Nat) (o : Op) (ho : e.op? id = some o)
+    (hq : isQos0Publish o.packet = true) : (e.startAckTimeout id).timeouts = e.timeouts := by
+  simp [Engine.startAckTimeout, Op.ackTimeout, ho, hq]
 
 theorem completeFailure_keeps_clock (e : Engine) (id : Nat) (k : String) :
     (e.completeFailure id k).1.timeouts = e.timeouts ∧ (e.completeFailure id k).1.now = e.now ∧
